@@ -9,6 +9,16 @@ unset RUSTFLAGS
   cargo build --profile rel --bin vh-run --target-dir target >/dev/null 2>&1
   cargo build --profile chk --bin vh-run --target-dir target-events --features events >/dev/null 2>&1
   cargo build --profile rel --bin vh-run --target-dir target-events --features events >/dev/null 2>&1
+  for f in wide wrapping events,wide events,wrapping wide,wrapping events,wide,wrapping; do
+    d=target-$(echo $f | tr ',' '-')
+    cargo build --profile chk --bin vh-run --target-dir $d --features $f >/dev/null 2>&1 &
+  done
+  wait
+  for f in wide wrapping events,wide events,wrapping wide,wrapping events,wide,wrapping; do
+    d=target-$(echo $f | tr ',' '-')
+    cargo build --profile rel --bin vh-run --target-dir $d --features $f >/dev/null 2>&1 &
+  done
+  wait
   RUSTFLAGS="--cfg gecs_verif -Zsanitizer=address" cargo +nightly build --profile rel --bin vh-run --target x86_64-unknown-linux-gnu --target-dir target-asan >/dev/null 2>&1
 )
 (cd proggen && cargo build --release >/dev/null 2>&1)
